@@ -166,6 +166,36 @@ def run(tier, seed, replay=None):
     except Exception as e:   # the CLI sample is a second observer; its absence is not a verdict
         rep.count("cli_sample_unavailable")
         util.log("[C12] CLI sample skipped: %s" % str(e)[:200])
+    # the macro front end: the same invocations expanded in fresh rustc processes (options travel through the macro's own
+    # parser and collections before they reach the generator)
+    try:
+        from . import c15
+        mods = {}
+        for i in range(6 if tier == "quick" else 24):
+            r = util.rng(seed, PROP, "macro", i)
+            o = c15.gen_options(r, "macro")
+            if i % 2 == 0 and not o["replacements"]:
+                o["replacements"].append({"name": "Kind", "type": "::vrt::support::ReplStr", "listed": r.choice([[], ["Default"]])})
+            mods["m%03d" % i] = (o, c15.gen_doc(r, o["ext"]))
+        KM = 4 if tier == "quick" else 8
+        builds = c15.macro_rebuilds(util.workdir(PROP, "macro"), mods, KM)
+        for name, (o, doc) in mods.items():
+            seen = {(b["streams"].get(name), tuple(b["errors"])) for b in builds}
+            rep.evaluations += len(builds)
+            if all(b["streams"].get(name) is None for b in builds):
+                rep.count("macro_not_expanded")
+                continue
+            if len(seen) > 1:
+                rep.violation("macro_output_differs_between_builds", c15.opt_site(o),
+                              {"module": name, "distinct": len(seen), "errors": sorted({e for b in builds for e in b["errors"]})[:4],
+                               "invocation": c15.macro_invocation(o, "schemas/%s.json" % name)},
+                              case={"id": name, "settings": c15.builder_settings(o), "history": [{"op": "root", "schema": doc}]})
+            else:
+                rep.count("macro_identical")
+                rep.nontrivial.add("macro:" + name)
+    except Exception as e:
+        rep.count("macro_sample_unavailable")
+        util.log("[C12] macro sample skipped: %s" % str(e)[:300])
     rep.notes["K_processes"] = K
     rep.notes["P_permutations"] = P
     return rep.finish(util.Findings(PROP, {}), min_nontrivial=20)
